@@ -93,6 +93,9 @@ pub trait Remap<'a> {
         params: Option<&'a str>,
         out: &mut Vec<NFrame<'a>>,
     );
+    /// Creates the frame iterator, pulls at most `k` items and drops it (a caller that only
+    /// wants the innermost frame); returns how many items it got.
+    fn frames_partial(&'a self, class: &'a str, method: &'a str, line: usize, file: Option<&'a str>, k: usize) -> usize;
     fn throwable(&'a self, class: &'a str, msg: Option<&'a str>) -> Option<(&'a str, Option<&'a str>)>;
     fn text(&self, input: &str) -> Result<String, String>;
     fn sig(&self, s: &str) -> Option<NSig>;
@@ -592,6 +595,15 @@ macro_rules! adapter {
                             for f in self.remap_frame(&fr) {
                                 out.push(conv_frame(&f));
                             }
+                        }
+                        fn frames_partial(&'a self, class: &'a str, method: &'a str, line: usize, file: Option<&'a str>, k: usize) -> usize {
+                            let fr = mk_frame(class, method, line, file, None);
+                            let mut it = self.remap_frame(&fr);
+                            let mut n = 0;
+                            while n < k && it.next().is_some() {
+                                n += 1;
+                            }
+                            n
                         }
                         fn throwable(&'a self, class: &'a str, msg: Option<&'a str>) -> Option<(&'a str, Option<&'a str>)> {
                             let t = match msg {
